@@ -199,9 +199,6 @@ class Model:
                     self.A[k].taint.add("regions-before-props")
         return a
 
-    def has(self, name):
-        return name in self.A
-
     def cells(self, box):
         i1, i2, j1, j2, k1, k2 = box
         nx, ny = self.nx, self.ny
@@ -287,7 +284,9 @@ class Model:
             # opaque (no further operations, compared by the metamorphic oracle only).
             if any(v is None for v in vals):
                 raise Invalid("defaulted entries together with top-layer distribution")
-            a.opaque = True
+            becomes_opaque = True
+        else:
+            becomes_opaque = False
         if name == "PORO" and any(v is None and a.st[c] == 0 for v, c in zip(vals, cs)):
             raise Invalid("PORO default on undefined cell")
         for v in vals:
@@ -303,6 +302,7 @@ class Model:
             a.st[c] = 2
             if a.gst is not None:
                 a.gst[c] = 2
+        a.opaque = becomes_opaque
         a.exists = True
 
     def _scalar_cells(self, a, name, kind, cs, v):
